@@ -302,8 +302,15 @@ def _sp_file_iteration_ok(eng, args, kw, n):
                 return Conc(False)
         else:
             return Conc(False)
-    if sum(1 for k, _ in calls if k.endswith("FileAnonymizer.anonymize_io")) > 1:
+    ios = [e for k, e in calls if k.endswith("FileAnonymizer.anonymize_io")]
+    if len(ios) > 1:
         return Conc(False)
+    # the one anonymizer of the run serves every file (shared secret lookup, C08); none is built per file
+    if any(k.endswith("FileAnonymizer.__init__") for k, _ in calls):
+        return Conc(False)
+    for e in ios:
+        if not _same(eng, e["self"], eng.st.vars["file_anonymizer"]):
+            return Conc(False)
     import z3 as _z3
     from pyvc.lib import uf, S
     for k, e in calls:
@@ -330,6 +337,7 @@ def _sp_opens_only(eng, args, kw, n):
 
 SPEC_BUILTINS["OpensOnly"] = _sp_opens_only
 R.contracts[M + "FileAnonymizer.anonymize_io"].record = True
+R.contracts[M + "FileAnonymizer.__init__"].record = True
 FA_OK = ["implies(file_anonymizer.anonymizer4 is not None, WF(file_anonymizer.anonymizer4) and file_anonymizer.anonymizer4.length == 32)",
          "implies(file_anonymizer.anonymizer6 is not None, WF(file_anonymizer.anonymizer6) and file_anonymizer.anonymizer6.length == 128)",
          "implies(file_anonymizer.anonymizer_as_num is not None, AsOK(file_anonymizer.anonymizer_as_num))",
